@@ -162,7 +162,15 @@ def canon(x, stored=frozenset(), depth=0):
         nt = getattr(x, "__dict__", {}).get("_non_tensordict")
         if nt:
             items += [(k, ("V", repr(v)[:60])) for k, v in nt.items()]
-        return ("C", type(x).__name__, tuple(x.batch_size), tuple(sorted(items, key=lambda e: str(e[0]))))
+        try:
+            names = tuple(x.names)      # dimension names are part of what a read returns (detach, batched views, lazy `.names`)
+        except Exception as e:  # noqa
+            names = ("<error>", type(e).__name__)
+        try:
+            device = str(x.device)
+        except Exception as e:  # noqa
+            device = "<error>" + type(e).__name__
+        return ("C", type(x).__name__, tuple(x.batch_size), names, device, tuple(sorted(items, key=lambda e: str(e[0]))))
     if isinstance(x, (list, tuple)):
         return (type(x).__name__, tuple(canon(v, stored, depth + 1) for v in x))
     if isinstance(x, dict):
@@ -183,4 +191,14 @@ def same_result(subject, cached, fresh) -> tuple[bool, str]:
     a, b = canon(cached, st), canon(fresh, st)
     if a == b:
         return True, ""
-    return False, f"cached={str(a)[:220]} fresh={str(b)[:220]}"
+    return False, _diff(a, b)
+
+
+def _diff(a, b, path="") -> str:
+    """the first place where two canonical renderings differ (so that the message names the entry, not the whole tree)"""
+    if type(a) is type(b) and isinstance(a, tuple) and len(a) == len(b):
+        for i, (x, y) in enumerate(zip(a, b)):
+            if x != y:
+                tag = x[0] if isinstance(x, tuple) and x and isinstance(x[0], str) and len(x) == 2 and isinstance(a[0], tuple) else i
+                return _diff(x, y, f"{path}/{tag}")
+    return f"at {path or '/'}: cached={str(a)[:200]} fresh={str(b)[:200]}"
